@@ -232,17 +232,17 @@ fn c11_mat_mul<A: ndarray::LinalgScalar>(alpha: A, lhs: &ndarray::ArrayView2<'_,
     }
 }
 
-// @unit class=bounded tier=thorough mem=heavy bound="n=2,p=1,tasks=2,max_steps=2, x,Y integer-valued in [-3,3], penalty integer 0..20, l1_ratio=1; sqrt uninterpreted, mat-mul kernel modelled" timeout=2400 fns=linfa_elasticnet::algorithm::block_coordinate_descent,linfa_elasticnet::algorithm::block_soft_thresholding,linfa_elasticnet::algorithm::duality_gap_mtl
+// @unit class=bounded tier=thorough mem=heavy bound="n=2,p=1,tasks=2,max_steps=2, x,Y integer-valued in [-2,2], penalty integer 0..8, l1_ratio=1; sqrt uninterpreted, mat-mul kernel modelled" timeout=3000 fns=linfa_elasticnet::algorithm::block_coordinate_descent,linfa_elasticnet::algorithm::block_soft_thresholding,linfa_elasticnet::algorithm::duality_gap_mtl
 #[kani::proof]
 #[kani::unwind(7)]
 #[kani::stub(alloc::fmt::format, fmt_stub)]
 #[kani::stub(f32::sqrt, ghost_sqrt32)]
 #[kani::stub(ndarray::linalg::impl_linalg::mat_mul_general, c11_mat_mul)]
 fn c11_bcd_n2_p1_t2() {
-    let x = [c11_si(-3, 3), c11_si(-3, 3)];
-    let y = [[c11_si(-3, 3), c11_si(-3, 3)], [c11_si(-3, 3), c11_si(-3, 3)]];
+    let x = [c11_si(-2, 2), c11_si(-2, 2)];
+    let y = [[c11_si(-2, 2), c11_si(-2, 2)], [c11_si(-2, 2), c11_si(-2, 2)]];
     let pen: u8 = kani::any();
-    kani::assume(pen <= 20);
+    kani::assume(pen <= 8);
     let xm = Array2::from_shape_vec((2, 1), vec![x[0] as f32, x[1] as f32]).unwrap();
     let ym = Array2::from_shape_vec((2, 2), vec![y[0][0] as f32, y[0][1] as f32, y[1][0] as f32, y[1][1] as f32]).unwrap();
     let (w, gap, steps) = block_coordinate_descent(xm.view(), ym.view(), 1e-4f32, 2, 1.0f32, pen as f32);
